@@ -21,4 +21,38 @@ def parseSizeF (s : Str) : Except Err (Option F64.Val) :=
 /-- the size condition a float limit builds: `tell + len > limit` compares an int with the double exactly -/
 def rotationSizeF (tell msgBytes : Int) (limit : F64.Val) : Bool := F64.intGt (tell + msgBytes) limit
 
+/-! #### parse_duration as Python computes it -/
+
+def unitOfF (u : Str) : List (List Str × Bool × Nat × Int) → Option F64.Val
+  | [] => none
+  | (names, isFloat, mant, ex) :: r =>
+    if names.contains (lower u) then some (if isFloat then F64.ofDec false mant ex else F64.ofInt (mant : Int))
+    else unitOfF u r
+
+/-- `parse_duration` with its real arithmetic: `seconds = 0; seconds += float(value) * unit` in binary64
+(the unit is an `int` or a float literal of the source, regenerated as `Gen.durationUnitsF`), then
+`datetime.timedelta(seconds=seconds)` (`F64.tdSeconds`) and the range check of `timedelta`.
+Same scanner as `parseDuration`; result in microseconds. -/
+def parseDurationF (s0 : Str) : Except Err (Option Int) :=
+  let s := strip s0
+  if !fullItems (s.length + 1) s then .ok none else
+  let items := findItems (s.length + 1) s
+  let rec go : List (Str × Str) → F64.Val → Except Err F64.Val
+    | [], acc => .ok acc
+    | (v, u) :: rest, acc =>
+      match parseFloat v with
+      | none => .error .valueError
+      | some d =>
+        match unitOfF u durationUnitsF with
+        | none => .error .valueError
+        | some unit => go rest (F64.add acc (F64.mul d.toF64 unit))
+  match go items (.fin false 0 0) with
+  | .error e => .error e
+  | .ok total =>
+    match F64.tdSeconds total with
+    | .nan => .error .valueError
+    | .overflow => .error .other
+    | .us us =>
+      if us > maxTimedeltaUs || us < -maxTimedeltaUs - 86400000000 then .error .other else .ok (some us)
+
 end Rotation
